@@ -10,6 +10,7 @@ import Ajson.Model.Encode
 import Ajson.Model.Decode
 import Ajson.Model.Dump
 import Ajson.Model.Path
+import Ajson.Spec.WF
 
 namespace Ajson
 
@@ -74,7 +75,8 @@ def dump (s : Session) : String :=
       | some d => (match datas.idxOf? d with | some i => s!"d{i}" | none => "d?")
       | none => "d-"
     s!"{numOf order n}:t{r.type.code} p{optNum order r.parent} k{match r.key with | some k => hexOrDash k | none => "~"} i{if (match r.parent with | some p => s.h.isArray p | none => false) then (match r.index with | some i => toString i | none => "~") else "*"} D{if r.dirty then 1 else 0} b{r.b0},{r.b1} {d} c{if r.dirty && !r.type.isContainer then cacheStr order r.cache else "*"} {kids}"
-  "H[" ++ ",".intercalate (s.handles.map (optNum order)) ++ "] " ++ " | ".intercalate (order.map nodeStr)
+  -- W1: the model heap satisfies the well-formedness invariant `Heap.wfB` (checked on every explored state)
+  (if s.h.wfB then "W1 " else "W0 ") ++ "H[" ++ ",".intercalate (s.handles.map (optNum order)) ++ "] " ++ " | ".intercalate (order.map nodeStr)
 
 def outStr : Outcome Unit → String
   | .ok () => "ok"
@@ -142,7 +144,7 @@ def withNode (s : Session) (x : String) (f : Id → Session × String) : Session
 
 /-- one `heap` request -/
 def step (s : Session) (f : List String) : Session × String :=
-  let order := s.numbering
+  let orderT : Unit → List Id := fun _ => s.numbering
   let unit (r : Heap × Outcome Unit) : Session × String := ({ s with h := r.1 }, outStr r.2)
   let node (r : Heap × Outcome Id) : Session × String := match r with
     | (h, .ok n) => (s.bind h n, "ok")
@@ -172,14 +174,14 @@ def step (s : Session) (f : List String) : Session × String :=
   | ["jsonpath", x, p] => match parseHandle s x, fromHex p with
     | some n, some p => match s.h.jsonPath s.env n p with
       | (h, .ok ids) =>
-        let (h', strs) := ids.foldl (fun (acc : Heap × List String) id => let (h2, str) := s.resultNode acc.1 order id; (h2, acc.2 ++ [str])) (h, [])
+        let (h', strs) := ids.foldl (fun (acc : Heap × List String) id => let (h2, str) := s.resultNode acc.1 (orderT ()) id; (h2, acc.2 ++ [str])) (h, [])
         ({ s with h := h' }, "ok [" ++ ",".intercalate strs ++ "]")
       | (h, .err e) => ({ s with h := h }, s!"err {e.typ.code}")
       | (h, .panic site) => ({ s with h := h }, if site.startsWith "oracle:" then "oracle-missing" else "panic " ++ site)
     | _, _ => (s, "bad-req")
   | ["eval", x, e] => match parseHandle s x, fromHex e with
     | some n, some e => match s.h.evalExpr s.env n e with
-      | (h, .ok (some r)) => let (h', str) := s.resultNode h order r; ({ s with h := h' }, "ok " ++ str)
+      | (h, .ok (some r)) => let (h', str) := s.resultNode h (orderT ()) r; ({ s with h := h' }, "ok " ++ str)
       | (h, .ok none) => ({ s with h := h }, "ok nil")
       | (h, .err er) => ({ s with h := h }, s!"err {er.typ.code}")
       | (h, .panic site) => ({ s with h := h }, if site.startsWith "oracle:" then "oracle-missing" else "panic " ++ site)
@@ -299,11 +301,11 @@ def step (s : Session) (f : List String) : Session × String :=
         | .err e => s!"err {e.typ.code}"
         | .panic site => "panic " ++ site)
       | "array", _ => match s.h.getArray on with
-        | (h, .ok ids) => ({ s with h := h }, "ok a[" ++ ",".intercalate (ids.map (numOf order)) ++ "]")
+        | (h, .ok ids) => ({ s with h := h }, "ok a[" ++ ",".intercalate (ids.map (numOf (orderT ()))) ++ "]")
         | (h, .err e) => ({ s with h := h }, s!"err {e.typ.code}")
         | (h, .panic site) => ({ s with h := h }, "panic " ++ site)
       | "object", _ => match s.h.getObject on with
-        | (h, .ok kv) => ({ s with h := h }, "ok o[" ++ kvNums order kv ++ "]")
+        | (h, .ok kv) => ({ s with h := h }, "ok o[" ++ kvNums (orderT ()) kv ++ "]")
         | (h, .err e) => ({ s with h := h }, s!"err {e.typ.code}")
         | (h, .panic site) => ({ s with h := h }, "panic " ++ site)
       | "unpack", some n => match s.h.unpack (s.h.size + 1) n with
@@ -324,10 +326,10 @@ def step (s : Session) (f : List String) : Session × String :=
       | "info", some n =>
         let r := s.h.get n
         let inh := match s.h.inheritors n with
-          | .ok ids => "[" ++ ",".intercalate (ids.map (numOf order)) ++ "]"
+          | .ok ids => "[" ++ ",".intercalate (ids.map (numOf (orderT ()))) ++ "]"
           | .err e => s!"err {e.typ.code}"
           | .panic site => "panic " ++ site
-        (s, s!"t{r.type.code} k{hexOrDash (r.key.getD [])} i{if (match r.parent with | some p => s.h.isArray p | none => false) then (match r.index with | some i => toString i | none => "-1") else "*"} size{s.h.nchildren n} empty{boolStr (s.h.nchildren n == 0)} dirty{boolStr r.dirty} parent{optNum order r.parent} keys[{",".intercalate ((Heap.sortByKey (s.h.childMap n)).map (fun p => hexOrDash p.1))}] inh{inh}")
+        (s, s!"t{r.type.code} k{hexOrDash (r.key.getD [])} i{if (match r.parent with | some p => s.h.isArray p | none => false) then (match r.index with | some i => toString i | none => "-1") else "*"} size{s.h.nchildren n} empty{boolStr (s.h.nchildren n == 0)} dirty{boolStr r.dirty} parent{optNum (orderT ()) r.parent} keys[{",".intercalate ((Heap.sortByKey (s.h.childMap n)).map (fun p => hexOrDash p.1))}] inh{inh}")
       | "info", none => (s, "t0 k- i* size0 emptyf dirtyf parent- keys[] inh[]")
       | "path", none => (s, "ok -")
       | "source", none => (s, "ok -")
